@@ -494,6 +494,12 @@ def _append_only_summary(I, st, env, s, star, frame):
         return None
     nbase = len(st.trace)
     tnames = set(n.id for n in ast.walk(s.target) if isinstance(n, ast.Name))
+    # names the body itself assigns (helper locals such as a hoisted isinstance test): after the loop they hold the value of
+    # the last iteration, which the summary does not know
+    # - only names that do not exist before the loop qualify (a name that does is carried from iteration to iteration, like
+    # the running angle of planArc), and only for loops over a container (not over a range of numbers)
+    bnames = set(n.id for b in s.body for n in ast.walk(b) if isinstance(n, ast.Name) and isinstance(n.ctx, ast.Store))
+    bnames = set(k for k in bnames if k not in env) if star.cls != '@num' else set()
     target = None
     suffixes = []
     for (s2, e2, oc) in results:
@@ -511,7 +517,7 @@ def _append_only_summary(I, st, env, s, star, frame):
                 if k in st.heap:
                     return None
         for k in set(e2) | set(env):
-            if k in tnames:
+            if k in tnames or k in bnames:
                 continue
             if e2.get(k) is not env.get(k):
                 return None
@@ -551,4 +557,6 @@ def _append_only_summary(I, st, env, s, star, frame):
     st.seqs[target] = st.seqs[target] + (Star(tag, None, nonempty),)
     st.ev('loop-summary', frame.qual(), star.tag, tuple(suffixes), target)
     I.stats['loop-summaries'] = I.stats.get('loop-summaries', 0) + 1
+    for k in bnames - tnames:
+        env[k] = Opaque('loop-local:%s' % k)
     return (st, env, None)
